@@ -48,22 +48,10 @@ theorem C06_structure_preserved (v : List Node) (h : wfKids [[]] v = true) :
 
 /-! ## the full statement and why it is false of the code -/
 
-def isTextNode : Node → Bool
-  | .text _ => true
-  | _ => false
-
 def attrShape : Attr → Bool
   | .plain n _ => attrNameOK n
   | .bool n _ => attrNameOK n
   | .innerHtml _ => false
-  | _ => true
-
-def attrValClean : Attr → Bool
-  | .plain _ v => clean v
-  | .cls v => clean v
-  | .clsToggle n _ => clean n
-  | .style v => clean v
-  | .styleKV n v => clean n && clean v
   | _ => true
 
 def attrsShape (attrs : List Attr) : Bool :=
@@ -146,26 +134,6 @@ theorem C06_structure_preserved_full_false : ¬ C06_structure_preserved_full := 
   decide
 
 /-! ## the partial theorem: everything outside the three finding classes -/
-
-mutual
-/-- class `raw-text-child` (negated): no element with `ESCAPE_CHILDREN = false` has a string child -/
-def rawTextFree : Node → Bool
-  | .text _ => true
-  | .elem tag _ kids => (escapeChildren tag || !kids.any isTextNode) && rawTextFreeKids kids
-def rawTextFreeKids : List Node → Bool
-  | [] => true
-  | n :: ns => rawTextFree n && rawTextFreeKids ns
-end
-
-mutual
-/-- classes `nul-char` / `cr-char` (negated): no string anywhere in the view contains U+0000 or U+000D -/
-def cleanNode : Node → Bool
-  | .text s => clean s
-  | .elem _ attrs kids => attrs.all attrValClean && cleanKids kids
-def cleanKids : List Node → Bool
-  | [] => true
-  | n :: ns => cleanNode n && cleanKids ns
-end
 
 theorem attrClean_of (a : Attr) (h1 : attrShape a = true) (h2 : attrValClean a = true) : attrClean a = true := by
   cases a <;> simp_all [attrShape, attrValClean, attrClean]
